@@ -116,9 +116,6 @@ const M: f64 = 256.0;
 // The correction factor, 'α' from the paper for k=8,M=256
 const ALPHA: f64 = 0.7213 / (1.0 + 1.079 / M);
 
-// 2^32 as a floating point number
-const TWO32: f64 = 4_294_967_296.0;
-
 // HyperLogLog++ Threshold, when to switch from linear counting for M=256 (k=8)
 #[allow(dead_code)]
 const THRESHOLD: f64 = 220.0;
@@ -130,10 +127,9 @@ fn estimate_hyperloglog(sum: f64, zero_count: usize) -> f64 {
         if zero_count != 0 {
             estimate = M * (M / (zero_count as f64)).ln(); // linear
         }
-    } else if estimate > (1.0 / 30.0) * TWO32 {
-        // 143165576
-        estimate = -TWO32 * (1.0 - estimate / TWO32).log2();
-    };
+    }
+    // No large-range correction: it compensates for collisions in a 32-bit hash
+    // space, but elements here are 256-bit values (registers run up to 249).
     estimate
 }
 
